@@ -36,6 +36,14 @@ fn input_kinds() -> Vec<InputKind> {
         InputKind { label: "success-xsd-imports", files: to_files(&s0), start: s0.start.clone(), start_exists: true, should_succeed: true },
         InputKind { label: "success-wsdl", files: to_files(&w), start: w.start.clone(), start_exists: true, should_succeed: true },
     ];
+    {
+        // the imported file imports the start file back (cycle through the start file)
+        let mut set = crate::seeds::kitchen_xsd();
+        set.files[1].prefixes.push(("a".into(), crate::seeds::NS_A.into()));
+        set.files[1].imports.push(crate::schema::Import { ns: crate::seeds::NS_A.into(), loc: Some("a.xsd".into()) });
+        let c = set.to_case();
+        v.push(InputKind { label: "success-xsd-import-cycle-through-start", files: to_files(&c), start: c.start.clone(), start_exists: true, should_succeed: true });
+    }
     v.push(InputKind { label: "missing-input", files: vec![("other.xsd".into(), to_files(&s1)[0].1.clone())], start: "a.xsd".into(), start_exists: false, should_succeed: false });
     {
         let mut f = to_files(&s1);
@@ -59,6 +67,14 @@ fn input_kinds() -> Vec<InputKind> {
         let t = String::from_utf8(f[0].1.clone()).unwrap();
         f[0].1 = b(t.replacen("element=\"tns:GetThing\"", "element=\"tns:ZvNoSuchElement\"", 1));
         v.push(InputKind { label: "unresolved-reference", files: f, start: w.start.clone(), start_exists: true, should_succeed: false });
+    }
+    {
+        // read succeeds, write fails: a message part that refers to a global ATTRIBUTE
+        let mut f = to_files(&w);
+        let t = String::from_utf8(f[0].1.clone()).unwrap();
+        let t = t.replacen("</xs:schema>", "  <xs:attribute name=\"ZvGlobalAttr\" type=\"xs:string\"/>\n    </xs:schema>", 1);
+        f[0].1 = b(t.replacen("element=\"tns:GetThing\"", "element=\"tns:ZvGlobalAttr\"", 1));
+        v.push(InputKind { label: "failure-while-writing", files: f, start: w.start.clone(), start_exists: true, should_succeed: false });
     }
     {
         let mut f = to_files(&w);
@@ -243,7 +259,7 @@ pub fn check(tier: &str) -> i32 {
     }
     rep.set("evaluations", json!(rows.len()));
     rep.set("distinct_nontrivial", json!(distinct.len()));
-    rep.set("rule", json!("complete product: 9 input outcomes (3 succeed, 6 fail at successive stages: missing input, non-UTF-8 sibling, malformed XML, unresolved import, unresolved reference, unsupported binding) x 5 path spellings x {--output, default .rs path} x pre-existing output {absent, shorter, longer with sentinel tail}; every row is one process run of the real zeep binary in a scratch directory; all rows are distinct and non-trivial"));
+    rep.set("rule", json!("complete product: 11 input outcomes (4 succeed, one of them with an import cycle through the start file; 7 fail at successive stages: missing input, non-UTF-8 sibling, malformed XML, unresolved import, unresolved reference, a failure while writing, unsupported binding) x 5 path spellings x {--output, default .rs path} x pre-existing output {absent, shorter, longer with sentinel tail}; every row is one process run of the real zeep binary in a scratch directory; all rows are distinct and non-trivial"));
     rep.set("exhaustive", json!(true));
     rep.assume("the zeep binary is rebuilt from /repo/zeep by the check script before the run");
     rep.assume("success rows are compared with the library output computed in-process from the same file contents");
